@@ -111,7 +111,11 @@ def algebra_jacobians(ctx, spec, N, chunk):
             ctx.check_array("right_Q_block", name, np.abs(Qr - rJr[:, :3, 3:]).max(axis=(1, 2)), 1e-9 * sc, {"x": X})
     if chunk == 0:
         # numeric (DM) call path, incl. vectors a hair away from zero
-        Xn = np.concatenate([X[:12], spec.alg_rand(rng, 30, thi=10.0), spec.alg_rand(rng, 20, hi=2e-3, tlo=1e-9, thi=3e-7)])
+        # ... and fine sweeps: consecutive calls at points that agree to 7 digits (a cache keyed on printed values,
+        # a stale block, ... only show in such call histories)
+        base = spec.alg_rand(rng, 6, thi=30.0, tlo=1.0)
+        sweep = np.concatenate([b[None, :] * (1 + 1e-7 * np.arange(4))[:, None] for b in base])
+        Xn = np.concatenate([X[:12], spec.alg_rand(rng, 30, thi=10.0), spec.alg_rand(rng, 20, hi=2e-3, tlo=1e-9, thi=3e-7), sweep])
         Xn = Xn[spec.alg_angle(Xn) <= 2 * PI - 0.05]
         rl, rr = ref_jacobians(spec, Xn)
         el_, er_ = [], []
